@@ -123,6 +123,17 @@ func exercise(in Input) string {
 			walk(e, 0, map[*yang.Entry]bool{}, func(x *yang.Entry) {
 				nodes++
 				_ = x.Path()
+				_ = x.DefaultValues()
+				if t := x.Type; t != nil {
+					_ = t.Range.String() + t.Length.String()
+					_ = t.Equal(t)
+					if t.Enum != nil {
+						_ = t.Enum.Names()
+					}
+					if t.Bit != nil {
+						_ = t.Bit.Values()
+					}
+				}
 				if nodes < 40 {
 					for _, p := range finds {
 						x.Find(p)
@@ -454,11 +465,12 @@ func shards(tier string) []string {
 	for i := 0; i < l4shards(); i++ {
 		out = append(out, fmt.Sprintf("L4/%d", i))
 	}
+	out = append(out, l6shards()...)
 	return append(out, l5shards()...)
 }
 
 func run(c *core.Ctx) {
-	c.Res.Bound = "L1/L2: the shared lexical spaces; L3: statement trees of <= 3 statements over 81 keywords (6 argument forms for <= 2 statements) at top level and under module/submodule headers; L4: 1-2 (thorough 3) files from a pool of self-, cross-, dangling and wrong-kind references x include/import links, both load orders; L5: every single-statement edit (delete, duplicate, drop argument, each of 81 keywords, 9 arguments, hoist, self-nest) of 14 seed files"
+	c.Res.Bound = "L1/L2: the shared lexical spaces; L3: statement trees of <= 3 statements over 81 keywords (6 argument forms for <= 2 statements) at top level and under module/submodule headers; L4: 1-2 (thorough 3) files from a pool of self-, cross-, dangling and wrong-kind references x include/import links, both load orders; L6: 23 type bases x every ordered pair of 148 restriction statements with limit, wrap-around and malformed arguments (fraction-digits, range, length, enum value, bit position, pattern, path, base, require-instance, nested type) in a leaf, in a typedef and in a typedef narrowed twice; L5: every single-statement edit (delete, duplicate, drop argument, each of 81 keywords, 9 arguments, hoist, self-nest) of 14 seed files"
 	n := 0
 	emit := func(in Input) {
 		caseNo, ok := c.Begin()
@@ -509,6 +521,10 @@ func run(c *core.Ctx) {
 		var i int
 		fmt.Sscanf(c.Shard, "L4/%d", &i)
 		l4(c, i, c.Tier == "thorough", emit)
+	case "L6":
+		var bi int
+		fmt.Sscanf(c.Shard, "L6/%d", &bi)
+		l6(c, bi, emit)
 	case "L5":
 		var gi, fi, part int
 		fmt.Sscanf(c.Shard, "L5/%d/%d/%d", &gi, &fi, &part)
@@ -531,7 +547,7 @@ func replay(tier string, raw json.RawMessage) (bool, string, string) {
 func init() {
 	core.Register(&core.Prop{
 		ID: "C01", Variant: "plain", Shards: shards, Run: run, Replay: replay,
-		Rule:        "every input of five exhaustively enumerated layers (lexical spaces; statement trees over the whole keyword alphabet; cross-reference programs with self-, mutual, dangling, unknown-prefix and wrong-kind references across modules and submodules in all load orders; the single-edit neighbourhood of a seed corpus) is run through yang.Parse, Modules.Parse, Process, and - when processing is clean - ToEntry, GetErrors, a full guarded walk and Find with paths that exist and paths that do not, from the module entry and from inner nodes; the oracle is that every call returns: a Go panic is caught in-process, a fatal error or a hang kills the crash-isolated worker and is attributed to the case it had announced; states = distinct inputs; non-trivial = inputs that reach processing",
+		Rule:        "every input of six exhaustively enumerated layers (lexical spaces; type bodies whose restriction arguments sit at, inside and outside the limits the resolver computes with; statement trees over the whole keyword alphabet; cross-reference programs with self-, mutual, dangling, unknown-prefix and wrong-kind references across modules and submodules in all load orders; the single-edit neighbourhood of a seed corpus) is run through yang.Parse, Modules.Parse, Process, and - when processing is clean - ToEntry, GetErrors, a full guarded walk and Find with paths that exist and paths that do not, from the module entry and from inner nodes; the oracle is that every call returns: a Go panic is caught in-process, a fatal error or a hang kills the crash-isolated worker and is attributed to the case it had announced; states = distinct inputs; non-trivial = inputs that reach processing",
 		Assumptions: []string{"trees are read only after a Process that returned no errors", "a case that runs longer than 40 s is a hang (cases take microseconds to milliseconds)"},
 	})
 }
